@@ -46,30 +46,16 @@ func getChainRoles(p *ir.Prog) *chainRoles {
 	r.onPool = p.FieldOr("chain", "Manager", "onPool", mapOfFunc(0))
 	r.mu = p.FieldOr("chain", "Manager", "mu", func(t types.Type) bool { return ir.IsNamed(t, "sync", "Mutex") })
 	r.methods = p.MethodsOf("chain", "Manager")
-	for _, f := range r.methods {
-		if len(f.CallsTo(false, r.storeApply)) > 0 {
-			if r.applyTip != nil {
-				ir.Fail("more than one Manager method calls Store.ApplyBlock")
-			}
-			r.applyTip = f
-		}
-		if len(f.CallsTo(false, r.storeRevert)) > 0 {
-			if r.revertTip != nil {
-				ir.Fail("more than one Manager method calls Store.RevertBlock")
-			}
-			r.revertTip = f
-		}
-	}
+	// the apply step, the revert step and the tip walker are the smallest Manager methods whose own expansion
+	// (helpers expanded into them) contains every call of Store.ApplyBlock, of Store.RevertBlock, and of both
+	r.applyTip = smallestUnitCovering(p, r.methods, r.storeApply)
+	r.revertTip = smallestUnitCovering(p, r.methods, r.storeRevert)
 	if r.applyTip == nil || r.revertTip == nil {
-		ir.Fail("Manager methods calling Store.ApplyBlock / Store.RevertBlock not found")
+		ir.Fail("Manager methods performing Store.ApplyBlock / Store.RevertBlock not found")
 	}
-	for _, f := range r.methods {
-		if len(f.CallsTo(false, r.applyTip.Obj)) > 0 && len(f.CallsTo(false, r.revertTip.Obj)) > 0 {
-			r.reorgTo = f
-		}
-	}
-	if r.reorgTo == nil {
-		ir.Fail("Manager method walking the tip (calls both the apply and the revert step) not found")
+	r.reorgTo = smallestUnitCovering(p, r.methods, r.storeApply, r.storeRevert)
+	if r.reorgTo == nil || r.reorgTo == r.applyTip || r.reorgTo == r.revertTip {
+		ir.Fail("Manager method walking the tip (performs both the apply and the revert step) not found")
 	}
 	// functions the rules treat as units stay calls in every view: the three tip steps and, where they can be
 	// resolved, the rebasing method, the reorg-path method, the proof updater and the pool revalidation step
@@ -80,6 +66,8 @@ func getChainRoles(p *ir.Prog) *chainRoles {
 		func() *ir.Func { return reorgPathFn(cx) },
 		func() *ir.Func { return proofUpdaterFn(cx) },
 		func() *ir.Func { return revalidateFn(cx, getPoolFields(p)) },
+		func() *ir.Func { return poolUpdateFn(r, p.Named("consensus", "ApplyUpdate")) },
+		func() *ir.Func { return poolUpdateFn(r, p.Named("consensus", "RevertUpdate")) },
 	} {
 		func() {
 			defer func() { _ = recover() }() // a role that does not resolve is reported by the rule that needs it
@@ -146,4 +134,69 @@ func (r *chainRoles) methodsWithDefers() []*ir.Func {
 		}
 	}
 	return out
+}
+
+// smallestUnitCovering returns the function among cands whose own expansion
+// (its callees and closures expanded into it, nothing held back) contains every
+// call site that any of cands makes to each of the targets, choosing the
+// smallest such function; nil if there is none.
+func smallestUnitCovering(p *ir.Prog, cands []*ir.Func, targets ...*types.Func) *ir.Func {
+	// raw call sites per target
+	sites := make([]map[ast.Node]bool, len(targets))
+	for i, t := range targets {
+		sites[i] = map[ast.Node]bool{}
+		for _, f := range cands {
+			for _, call := range f.CallsTo(true, t) {
+				sites[i][call.Expr] = true
+			}
+		}
+		if len(sites[i]) == 0 {
+			return nil
+		}
+	}
+	var best *ir.Func
+	bestSize := 0
+	for _, f := range cands {
+		v := p.Expand(f, ir.ExpandOpt{Key: "unit"})
+		ok := true
+		for i, t := range targets {
+			seen := map[ast.Node]bool{}
+			for _, call := range v.CallsTo(true, t) {
+				seen[p.OrigNode(call.Expr)] = true
+			}
+			for site := range sites[i] {
+				if !seen[site] {
+					ok = false
+				}
+			}
+		}
+		if !ok {
+			continue
+		}
+		if size := len(v.Graph().Nodes); best == nil || size < bestSize {
+			best, bestSize = f, size
+		}
+	}
+	return best
+}
+
+// poolUpdateFn: the unexported Manager method with parameters (<update type>, consensus.State) that moves the
+// pool's proofs when a block is applied / reverted.
+func poolUpdateFn(r *chainRoles, upd *types.Named) *ir.Func {
+	csT := r.p.Named("consensus", "State")
+	for _, f := range r.methods {
+		if exported(f) || f.Type.Params == nil || f.Type.Params.NumFields() != 2 {
+			continue
+		}
+		var ts []types.Type
+		for _, fld := range f.Type.Params.List {
+			for range fld.Names {
+				ts = append(ts, f.Info().TypeOf(fld.Type))
+			}
+		}
+		if len(ts) == 2 && types.Identical(ts[0], upd) && types.Identical(ts[1], csT) {
+			return f
+		}
+	}
+	return nil
 }
